@@ -19,8 +19,12 @@ P = {
     'C11': (False, '', '', '', '7/C11'),
     'C12': (False, '', '', '', '7/C12'),
     'C13': (False, '', '', '', '7/C13'),
-    'C14': (False, '', '', '', '7/C14'),
-    'C15': (False, '', '', '', '7/C15'),
+    'C14': (True, 'bounded-exhaustive enumeration of the complete product of signature shapes (counts per parameter kind x default assignments x annotations x def/lambda) through the real parser and conversion functions against an in-harness reference',
+            'Every signature shape up to the bound is parsed and converted both ways by the real code; the index arithmetic of the conversions depends only on the list lengths, all combinations of which are covered.',
+            'reference = the generator\'s own description of each signature; default feature configuration', '7/C14'),
+    'C15': (True, 'explicit exploration of every next()/next_back() interleaving of the newline iterator and bounded-exhaustive enumeration of texts x offsets x line numbers and of range pairs, against boring in-Rust reference models',
+            'All texts over {a, é, LF, CR, 😀, BOM} up to the bound, all offsets, all line numbers, all iterator call sequences to exhaustion and all range pairs over a boundary endpoint set run through the real vendored code and are compared with reference models written in the harness.',
+            'reference models in the harness (line splitter, deque of lines, u64 interval arithmetic); overflow checks on', '7/C15'),
     'C16': (True, 'bounded-exhaustive input enumeration (every Unicode scalar, all short strings over a class alphabet, all byte strings <=2) of the real escaping code against CPython repr/literal_eval and the real Constant::parse',
             'Every input inside the stated bound is executed on the real UnicodeEscape/AsciiEscape and compared with CPython; the bound contains every code point, so per-character escaping decisions are covered completely and interactions up to length 2-3.',
             'CPython 3.11 repr/ast.literal_eval; one frozen table of code points whose printable status differs between Unicode versions (vp/data/c16_delta.json); derive(Debug)', '7/C16'),
